@@ -224,6 +224,7 @@ def run(prog, rep):
     rep.floor("no-module-state", n_mod, 13)
     # decoders
     cd = Codecs(prog)
+    cd.flag_errors(rep)
     n_dec = 0
     for u in cd.units.values():
         n_dec += 1
